@@ -768,4 +768,492 @@ theorem conf_roll (h : Consensus.execOp ctx 122 s alt ≠ .oversize) :
               cases l[n.toNat]? <;> rfl
 
 end
+/-- CHECKLOCKTIMEVERIFY: for every locktime (a 32-bit value, as `Locktime()` guarantees), sequence,
+    and operand of at most 5 bytes the model's outcome is consensus' -/
+theorem conf_cltv (env : Env) (s alt : Stack) (hlt : env.locktime ≤ 4294967295)
+    (h : Consensus.execOp (ctxOf env) 177 s alt ≠ .oversize) :
+    liftS (op_checklocktimeverify env s) alt = Consensus.execOp (ctxOf env) 177 s alt := by
+  rcases s with _ | ⟨top, s⟩
+  · unfold op_checklocktimeverify; split <;> rfl
+  · have e : Consensus.execOp (ctxOf env) 177 (top :: s) alt =
+        match Consensus.num5 top with
+        | none => .oversize
+        | some n =>
+          if n < 0 then .fail
+          else if !Consensus.checkLockTime (ctxOf env) n.toNat then .fail
+          else .ok (top :: s, alt) := rfl
+    rw [e] at h ⊢
+    cases hn : Consensus.num5 top with
+    | none => simp [hn] at h
+    | some n =>
+      unfold op_checklocktimeverify
+      simp only [num5_some hn]
+      by_cases hneg : n < 0
+      · simp only [hneg, if_true]; split <;> rfl
+      · simp only [hneg, if_false]
+        generalize n.toNat = m
+        simp only [locktimeComparable, Consensus.checkLockTime, Consensus.LOCKTIME_THRESHOLD,
+          Consensus.SEQUENCE_FINAL, ctxOf, Gen.maxSequence, Gen.maxLocktime, Gen.blockLimit]
+        by_cases h1 : env.sequence = 4294967295 <;> by_cases h2 : m > 4294967295 <;>
+          by_cases h3 : env.locktime < 500000000 <;> by_cases h4 : m < 500000000 <;>
+          by_cases h5 : env.locktime < m <;>
+          simp [h1, h2, h3, h4, h5, liftS] <;> omega
+theorem and_bit' (x i : Nat) : x &&& 2 ^ i = if x.testBit i then 2 ^ i else 0 := by
+  apply Nat.eq_of_testBit_eq
+  intro j
+  rw [Nat.testBit_and, Nat.testBit_two_pow]
+  by_cases h : i = j
+  · subst h; cases hx : x.testBit i <;> simp [Nat.testBit_two_pow_self]
+  · cases hx : x.testBit i <;> simp [h, Nat.testBit_two_pow_of_ne h]
+
+theorem and_bit (x i : Nat) : x &&& 2 ^ i = 0 ∨ x &&& 2 ^ i = 2 ^ i := by
+  rw [and_bit']; cases x.testBit i <;> simp
+
+theorem and_mask16 (x : Nat) : x &&& 65535 = x % 65536 := Nat.and_two_pow_sub_one_eq_mod x 16
+
+theorem and_typemask (x : Nat) : x &&& (4194304 ||| 65535) = (x &&& 4194304) + (x &&& 65535) := by
+  rw [Nat.and_or_distrib_left]
+  have hm : x &&& 65535 < 2 ^ 22 := by rw [and_mask16]; omega
+  rcases and_bit x 22 with h | h
+  · have h' : x &&& 4194304 = 0 := h
+    rw [h']; simp
+  · have h' : x &&& 4194304 = 2 ^ 22 := h
+    have := Nat.two_pow_add_eq_or_of_lt hm 1
+    simp only [Nat.mul_one] at this
+    rw [h']; omega
+
+/-- CHECKSEQUENCEVERIFY (repaired, F07d): for every sequence, version and operand below 2^32 the
+    model's outcome is consensus' (BIP112), including the disable-flag NOP -/
+theorem conf_csv (env : Env) (s alt : Stack)
+    (hop : ∀ top rest, s = top :: rest → decodeNum top < 4294967296)
+    (h : Consensus.execOp (ctxOf env) 178 s alt ≠ .oversize) :
+    liftS (op_checksequenceverify Cfg.repaired env s) alt = Consensus.execOp (ctxOf env) 178 s alt := by
+  rcases s with _ | ⟨top, s⟩
+  · rfl
+  · have e : Consensus.execOp (ctxOf env) 178 (top :: s) alt =
+        match Consensus.num5 top with
+        | none => .oversize
+        | some n =>
+          if n < 0 then .fail
+          else if n.toNat &&& Consensus.SEQUENCE_LOCKTIME_DISABLE_FLAG ≠ 0 then .ok (top :: s, alt)
+          else if !Consensus.checkSequence (ctxOf env) n.toNat then .fail
+          else .ok (top :: s, alt) := rfl
+    rw [e] at h ⊢
+    have hop' := hop top s rfl
+    cases hn : Consensus.num5 top with
+    | none => simp [hn] at h
+    | some n =>
+      unfold op_checksequenceverify
+      rw [num5_some hn] at hop'
+      simp only [num5_some hn, Cfg.repaired, Bool.not_true, Bool.false_and, Bool.true_and]
+      by_cases hneg : n < 0
+      · simp [hneg, liftS]
+      · simp only [hneg, if_false]
+        have hm : n.toNat ≤ 4294967295 := by omega
+        generalize n.toNat = m at *
+        clear h e hop hn hop'
+        simp only [seqIsRelative, seqIsRelativeTime, seqIsRelativeBlock, seqComparable,
+          Consensus.checkSequence, Consensus.SEQUENCE_LOCKTIME_DISABLE_FLAG,
+          Consensus.SEQUENCE_LOCKTIME_TYPE_FLAG, Consensus.SEQUENCE_LOCKTIME_MASK, ctxOf,
+          Gen.seqDisableFlag, Gen.seqTimeFlag, Gen.seqMask, Gen.csvMinVersion, Gen.maxSequence,
+          Nat.one_shiftLeft]
+        have e31 : (2 : Nat) ^ 31 = 2147483648 := by decide
+        have e22 : (2 : Nat) ^ 22 = 4194304 := by decide
+        rw [e31, e22, and_typemask, and_typemask]
+        have hs31 := and_bit env.sequence 31
+        have hs22 := and_bit env.sequence 22
+        have hm31 := and_bit m 31
+        have hm22 := and_bit m 22
+        rw [e31] at hs31 hm31
+        rw [e22] at hs22 hm22
+        simp only [and_mask16]
+        have hm' : ¬ 4294967295 < m := by omega
+        by_cases hv : env.version < 2 <;>
+          rcases hs31 with a | a <;> rcases hs22 with b | b <;> rcases hm31 with c | c <;>
+          rcases hm22 with d | d <;> by_cases hlt : env.sequence % 65536 < m % 65536 <;>
+          simp [a, b, c, d, hv, hlt, hm', liftS] <;> omega
+/-- CSV with an operand of 2^32 or more (only possible with 5 bytes): the implementation's
+    `Sequence(element)` raises ValueError where consensus would go on with the masked value
+    (N07f, outside the property's operand range); in every other respect the outcomes agree -/
+theorem conf_csv_wide (env : Env) (top : Bytes) (s alt : Stack)
+    (hw : ¬ decodeNum top < 4294967296)
+    (hve : op_checksequenceverify Cfg.repaired env (top :: s) ≠ .err .valueError)
+    (h : Consensus.execOp (ctxOf env) 178 (top :: s) alt ≠ .oversize) :
+    liftS (op_checksequenceverify Cfg.repaired env (top :: s)) alt
+      = Consensus.execOp (ctxOf env) 178 (top :: s) alt := by
+  have e : Consensus.execOp (ctxOf env) 178 (top :: s) alt =
+      match Consensus.num5 top with
+      | none => .oversize
+      | some n =>
+        if n < 0 then .fail
+        else if n.toNat &&& Consensus.SEQUENCE_LOCKTIME_DISABLE_FLAG ≠ 0 then .ok (top :: s, alt)
+        else if !Consensus.checkSequence (ctxOf env) n.toNat then .fail
+        else .ok (top :: s, alt) := rfl
+  rw [e] at h ⊢
+  cases hn : Consensus.num5 top with
+  | none => simp [hn] at h
+  | some n =>
+    unfold op_checksequenceverify at hve ⊢
+    rw [num5_some hn] at hw
+    simp only [num5_some hn, Cfg.repaired, Bool.not_true, Bool.false_and, Bool.true_and] at hve ⊢
+    have hneg : ¬ n < 0 := by omega
+    simp only [hneg, if_false] at hve ⊢
+    have hm : 4294967295 < n.toNat := by omega
+    generalize n.toNat = m at *
+    clear h e hn
+    simp only [seqIsRelative, Consensus.checkSequence, Consensus.SEQUENCE_LOCKTIME_DISABLE_FLAG, ctxOf,
+      Gen.seqDisableFlag, Gen.csvMinVersion, Gen.maxSequence, Nat.one_shiftLeft] at hve ⊢
+    have e31 : (2 : Nat) ^ 31 = 2147483648 := by decide
+    rw [e31]
+    have hs31 := and_bit env.sequence 31
+    have hm31 := and_bit m 31
+    rw [e31] at hs31 hm31
+    by_cases hv : env.version < 2 <;> rcases hs31 with a | a <;> rcases hm31 with c | c <;>
+      simp [a, c, hv, hm, liftS] at hve ⊢
+
+theorem conf_csv' (env : Env) (s alt : Stack)
+    (hve : op_checksequenceverify Cfg.repaired env s ≠ .err .valueError)
+    (h : Consensus.execOp (ctxOf env) 178 s alt ≠ .oversize) :
+    liftS (op_checksequenceverify Cfg.repaired env s) alt = Consensus.execOp (ctxOf env) 178 s alt := by
+  rcases s with _ | ⟨top, s⟩
+  · rfl
+  · by_cases hw : decodeNum top < 4294967296
+    · exact conf_csv env (top :: s) alt (fun t r e => by cases e; exact hw) h
+    · exact conf_csv_wide env top s alt hw hve h
+/-! ## the dispatch table and the master conformance theorem -/
+
+/-- opcode ↦ function for the flow-free part of the subset (everything except IF/NOTIF/ELSE/ENDIF,
+    the two alt-stack opcodes and OP_2ROT) -/
+def opPairs : List (Nat × OpFn) := [(0, .num 0), (79, .num (-1)), (81, .num 1), (82, .num 2), (83, .num 3), (84, .num 4), (85, .num 5), (86, .num 6), (87, .num 7), (88, .num 8), (89, .num 9), (90, .num 10), (91, .num 11), (92, .num 12), (93, .num 13), (94, .num 14), (95, .num 15), (96, .num 16), (97, .nop), (105, .verify), (106, .return_), (109, .drop2), (110, .dup2), (111, .dup3), (112, .over2), (114, .swap2), (115, .ifdup), (116, .depth), (117, .drop), (118, .dup), (119, .nip), (120, .over), (121, .pick), (122, .roll), (123, .rot), (124, .swap), (125, .tuck), (130, .size), (135, .equal), (136, .equalverify), (139, .add1), (140, .sub1), (143, .negate), (144, .abs), (145, .not), (146, .notequal0), (147, .add), (148, .sub), (154, .booland), (155, .boolor), (156, .numequal), (157, .numequalverify), (158, .numnotequal), (159, .lessthan), (160, .greaterthan), (161, .lessthanorequal), (162, .greaterthanorequal), (163, .min), (164, .max), (165, .within), (166, .ripemd160), (167, .sha1), (168, .sha256), (169, .hash160), (170, .hash256), (176, .nop), (177, .checklocktimeverify), (178, .checksequenceverify), (179, .nop), (180, .nop), (181, .nop), (182, .nop), (183, .nop), (184, .nop), (185, .nop)]
+
+/-- every function of the subset, applied to every stack, is the consensus opcode -/
+theorem fn_conforms (env : Env) (c : Nat) (fn : OpFn) (hp : (c, fn) ∈ opPairs) (s alt : Stack)
+    (hlt : env.locktime ≤ 4294967295)
+    (hve : c = 178 → op_checksequenceverify Cfg.repaired env s ≠ .err .valueError)
+    (h : Consensus.execOp (ctxOf env) c s alt ≠ .oversize) :
+    liftS (applyStackFn Cfg.repaired env fn s) alt = Consensus.execOp (ctxOf env) c s alt := by
+  simp only [opPairs, List.mem_cons, Prod.mk.injEq, List.mem_nil_iff, or_false] at hp
+  rcases hp with ⟨rfl, rfl⟩ | ⟨rfl, rfl⟩ | ⟨rfl, rfl⟩ | ⟨rfl, rfl⟩ | ⟨rfl, rfl⟩ | ⟨rfl, rfl⟩ | ⟨rfl, rfl⟩ | ⟨rfl, rfl⟩ | ⟨rfl, rfl⟩ | ⟨rfl, rfl⟩ | ⟨rfl, rfl⟩ | ⟨rfl, rfl⟩ | ⟨rfl, rfl⟩ | ⟨rfl, rfl⟩ | ⟨rfl, rfl⟩ | ⟨rfl, rfl⟩ | ⟨rfl, rfl⟩ | ⟨rfl, rfl⟩ | ⟨rfl, rfl⟩ | ⟨rfl, rfl⟩ | ⟨rfl, rfl⟩ | ⟨rfl, rfl⟩ | ⟨rfl, rfl⟩ | ⟨rfl, rfl⟩ | ⟨rfl, rfl⟩ | ⟨rfl, rfl⟩ | ⟨rfl, rfl⟩ | ⟨rfl, rfl⟩ | ⟨rfl, rfl⟩ | ⟨rfl, rfl⟩ | ⟨rfl, rfl⟩ | ⟨rfl, rfl⟩ | ⟨rfl, rfl⟩ | ⟨rfl, rfl⟩ | ⟨rfl, rfl⟩ | ⟨rfl, rfl⟩ | ⟨rfl, rfl⟩ | ⟨rfl, rfl⟩ | ⟨rfl, rfl⟩ | ⟨rfl, rfl⟩ | ⟨rfl, rfl⟩ | ⟨rfl, rfl⟩ | ⟨rfl, rfl⟩ | ⟨rfl, rfl⟩ | ⟨rfl, rfl⟩ | ⟨rfl, rfl⟩ | ⟨rfl, rfl⟩ | ⟨rfl, rfl⟩ | ⟨rfl, rfl⟩ | ⟨rfl, rfl⟩ | ⟨rfl, rfl⟩ | ⟨rfl, rfl⟩ | ⟨rfl, rfl⟩ | ⟨rfl, rfl⟩ | ⟨rfl, rfl⟩ | ⟨rfl, rfl⟩ | ⟨rfl, rfl⟩ | ⟨rfl, rfl⟩ | ⟨rfl, rfl⟩ | ⟨rfl, rfl⟩ | ⟨rfl, rfl⟩ | ⟨rfl, rfl⟩ | ⟨rfl, rfl⟩ | ⟨rfl, rfl⟩ | ⟨rfl, rfl⟩ | ⟨rfl, rfl⟩ | ⟨rfl, rfl⟩ | ⟨rfl, rfl⟩ | ⟨rfl, rfl⟩ | ⟨rfl, rfl⟩ | ⟨rfl, rfl⟩ | ⟨rfl, rfl⟩ | ⟨rfl, rfl⟩ | ⟨rfl, rfl⟩ | ⟨rfl, rfl⟩
+  · exact conf_num_0 _ s alt
+  · exact conf_num_neg1 _ s alt
+  · exact conf_num_pos _ s alt 81 (by decide) (by decide)
+  · exact conf_num_pos _ s alt 82 (by decide) (by decide)
+  · exact conf_num_pos _ s alt 83 (by decide) (by decide)
+  · exact conf_num_pos _ s alt 84 (by decide) (by decide)
+  · exact conf_num_pos _ s alt 85 (by decide) (by decide)
+  · exact conf_num_pos _ s alt 86 (by decide) (by decide)
+  · exact conf_num_pos _ s alt 87 (by decide) (by decide)
+  · exact conf_num_pos _ s alt 88 (by decide) (by decide)
+  · exact conf_num_pos _ s alt 89 (by decide) (by decide)
+  · exact conf_num_pos _ s alt 90 (by decide) (by decide)
+  · exact conf_num_pos _ s alt 91 (by decide) (by decide)
+  · exact conf_num_pos _ s alt 92 (by decide) (by decide)
+  · exact conf_num_pos _ s alt 93 (by decide) (by decide)
+  · exact conf_num_pos _ s alt 94 (by decide) (by decide)
+  · exact conf_num_pos _ s alt 95 (by decide) (by decide)
+  · exact conf_num_pos _ s alt 96 (by decide) (by decide)
+  · exact conf_nop _ s alt 97 (by decide)
+  · exact conf_verify _ s alt
+  · exact conf_return _ s alt
+  · exact conf_2drop _ s alt
+  · exact conf_2dup _ s alt
+  · exact conf_3dup _ s alt
+  · exact conf_2over _ s alt
+  · exact conf_2swap _ s alt
+  · exact conf_ifdup _ s alt
+  · exact conf_depth _ s alt
+  · exact conf_drop _ s alt
+  · exact conf_dup _ s alt
+  · exact conf_nip _ s alt
+  · exact conf_over _ s alt
+  · exact conf_pick _ s alt h
+  · exact conf_roll _ s alt h
+  · exact conf_rot _ s alt
+  · exact conf_swap _ s alt
+  · exact conf_tuck _ s alt
+  · exact conf_size _ s alt
+  · exact conf_equal _ s alt
+  · exact conf_equalverify _ s alt
+  · exact conf_1add _ s alt h
+  · exact conf_1sub _ s alt h
+  · exact conf_negate _ s alt h
+  · exact conf_abs _ s alt h
+  · exact conf_not _ s alt h
+  · exact conf_0notequal _ s alt h
+  · exact conf_add _ s alt h
+  · exact conf_sub _ s alt h
+  · exact conf_booland _ s alt h
+  · exact conf_boolor _ s alt h
+  · exact conf_numequal _ s alt h
+  · exact conf_numequalverify _ s alt h
+  · exact conf_numnotequal _ s alt h
+  · exact conf_lessthan _ s alt h
+  · exact conf_greaterthan _ s alt h
+  · exact conf_lessthanorequal _ s alt h
+  · exact conf_greaterthanorequal _ s alt h
+  · exact conf_min _ s alt h
+  · exact conf_max _ s alt h
+  · exact conf_within _ s alt h
+  · exact conf_ripemd160 s alt env
+  · exact conf_sha1 s alt env
+  · exact conf_sha256 s alt env
+  · exact conf_hash160 s alt env
+  · exact conf_hash256 s alt env
+  · exact conf_nop _ s alt 176 (by decide)
+  · exact conf_cltv env s alt hlt h
+  · exact conf_csv' env s alt (hve rfl) h
+  · exact conf_nop _ s alt 179 (by decide)
+  · exact conf_nop _ s alt 180 (by decide)
+  · exact conf_nop _ s alt 181 (by decide)
+  · exact conf_nop _ s alt 182 (by decide)
+  · exact conf_nop _ s alt 183 (by decide)
+  · exact conf_nop _ s alt 184 (by decide)
+  · exact conf_nop _ s alt 185 (by decide)
+
+/-- `op_lookup[command]` resolved to a modelled function -/
+def resolve (tap : Bool) (c : Nat) : Option OpFn := (lookup (table tap) c).bind OpFn.ofName
+
+/-- the legacy dispatch table of /repo (Buidl.Gen.Op, re-extracted on every run) maps every opcode
+    of the subset to the function the conformance lemma is about, with the matching calling
+    convention -/
+theorem table_pairs : ∀ p ∈ opPairs, resolve false p.1 = some p.2 ∧ p.2.conv = convOf p.1 ∧
+    Consensus.unsupportedOp p.1 = false ∧ Consensus.disabledOp p.1 = false ∧
+    p.1 ≠ 99 ∧ p.1 ≠ 100 ∧ p.1 ≠ 103 ∧ p.1 ≠ 104 := by decide
+
+theorem table_flow : resolve false 99 = some .if_ ∧ resolve false 100 = some .notif ∧
+    resolve false 107 = some .toaltstack ∧ resolve false 108 = some .fromaltstack ∧
+    resolve false 113 = some .rot2 ∧ resolve false 103 = none ∧ resolve false 104 = none := by decide
+/-! ## one step of `evaluate` on an opcode of the subset -/
+
+theorem stepOp_plain (cfg : Cfg) (env : Env) (st : St) (c : Nat) (fn : OpFn)
+    (hr : resolve st.tap c = some fn) (hc : fn.conv = convOf c)
+    (hf : fn ≠ .if_ ∧ fn ≠ .notif ∧ fn ≠ .toaltstack ∧ fn ≠ .fromaltstack) :
+    stepOp cfg env st c =
+      (applyStackFn cfg env fn st.stack).toOut fun s => .ok { st with stack := s } := by
+  unfold resolve at hr
+  unfold stepOp
+  cases hl : lookup (table st.tap) c with
+  | none => simp [hl] at hr
+  | some name =>
+    simp only [hl, Option.bind] at hr
+    simp only [hr, hc, ne_eq, not_true_eq_false, if_false]
+    obtain ⟨h1, h2, h3, h4⟩ := hf
+    cases fn <;> first | rfl | contradiction
+
+theorem stepOp_unknown (cfg : Cfg) (env : Env) (st : St) (c : Nat)
+    (hk : lookup (table st.tap) c = none) : stepOp cfg env st c = .error (.err .keyError) := by
+  unfold stepOp; simp [hk]
+
+def Out.toSpec : Out → Option Consensus.Out
+  | .accept => some .accept
+  | .reject => some .reject
+  | .err _ => some .reject
+  | .outOfFuel => none
+
+theorem finalTest_spec (ctx : Consensus.Ctx) (stack alt : Stack) :
+    (finalTest Cfg.repaired stack).toSpec = some (Consensus.runFrom ctx ⟨stack, alt, []⟩ []) := by
+  rcases stack with _ | ⟨top, s⟩
+  · rfl
+  · simp only [finalTest, Cfg.repaired, if_true, op_verify, Consensus.runFrom, ne_eq, not_true_eq_false,
+      if_false, castToBool_eq]
+    by_cases h : decodeNum top = 0 <;> simp [h, Out.toSpec]
+
+/-- a push outside the P2SH / witness-program patterns: none of `evaluate`'s rules fires -/
+def plainPush (b : Bytes) : Bool := b.length != 20 && b.length != 32
+
+def slOp (c : Nat) : Bool :=
+  opPairs.any (fun p => p.1 == c) || c == 107 || c == 108 || c == 103 || c == 104
+
+/-- commands of a straight-line program: data pushes that are not 20 or 32 bytes long and every
+    opcode of the subset except IF/NOTIF and 2ROT (ELSE/ENDIF allowed: both sides reject them) -/
+def slCmd : Cmd → Bool
+  | .push b => plainPush b
+  | .op c => slOp c
+
+theorem p2shRule_plain (env : Env) (st : St) (b : Bytes) (h : st.cmds.all slCmd = true) :
+    p2shRule env st b = .ok st := by
+  unfold p2shRule
+  split
+  · rename_i h160 heq
+    rw [heq] at h
+    simp only [List.all_cons, slCmd, plainPush, Bool.and_eq_true, bne_iff_ne, ne_eq] at h
+    have : ¬ h160.length = 20 := h.2.1.1
+    simp [this]
+  · rfl
+
+theorem witnessRules_plain (env : Env) (st : St) (b : Bytes) (s : Stack) (hs : st.stack = b :: s)
+    (h : plainPush b = true) : witnessRules env st = .ok st := by
+  unfold witnessRules
+  simp only [plainPush, Bool.and_eq_true, bne_iff_ne, ne_eq] at h
+  rw [hs]
+  split
+  · rename_i s1 s0 heq
+    have : s1 = b := by injection heq with h1 h2; exact h1.symm
+    subst this
+    simp [h.1, h.2]
+  · rfl
+
+
+theorem run_nil (cfg : Cfg) (env : Env) (fuel : Nat) (st : St) (h : st.cmds = []) :
+    run cfg env fuel st = finalTest cfg st.stack := by
+  unfold run; simp [h]
+
+theorem run_cons (cfg : Cfg) (env : Env) (fuel : Nat) (st : St) (c : Cmd) (rest : List Cmd)
+    (h : st.cmds = c :: rest) :
+    run cfg env (fuel + 1) st =
+      match step cfg env { st with cmds := rest } c with
+      | .error o => o
+      | .ok st' => run cfg env fuel st' := by
+  conv => lhs; unfold run
+  simp [h]
+  rfl
+
+theorem table_pairs_plain : ∀ p ∈ opPairs,
+    p.2 ≠ .if_ ∧ p.2 ≠ .notif ∧ p.2 ≠ .toaltstack ∧ p.2 ≠ .fromaltstack := by decide
+
+theorem slOp_cases {c : Nat} (h : slOp c = true) :
+    (∃ fn, (c, fn) ∈ opPairs) ∨ c = 107 ∨ c = 108 ∨ c = 103 ∨ c = 104 := by
+  simp only [slOp, Bool.or_eq_true, List.any_eq_true, beq_iff_eq] at h
+  rcases h with (((⟨p, hp, rfl⟩ | h) | h) | h) | h
+  · exact Or.inl ⟨p.2, hp⟩
+  · exact Or.inr (Or.inl h)
+  · exact Or.inr (Or.inr (Or.inl h))
+  · exact Or.inr (Or.inr (Or.inr (Or.inl h)))
+  · exact Or.inr (Or.inr (Or.inr (Or.inr h)))
+
+/-- straight-line programs: `evaluate` is consensus' `EvalScript` + final `CastToBool`, by
+    induction over the program, for every stack, alt-stack and sufficient fuel -/
+theorem run_straightline (env : Env) (hlt : env.locktime ≤ 4294967295) :
+    ∀ (prog : List Cmd) (stack alt : Stack) (fuel : Nat),
+      prog.all slCmd = true → prog.length ≤ fuel →
+      run Cfg.repaired env fuel ⟨prog, stack, alt, none, false⟩ ≠ .err .valueError →
+      Consensus.runFrom (ctxOf env) ⟨stack, alt, []⟩ prog ≠ .oversize →
+      (run Cfg.repaired env fuel ⟨prog, stack, alt, none, false⟩).toSpec
+        = some (Consensus.runFrom (ctxOf env) ⟨stack, alt, []⟩ prog) := by
+  intro prog
+  induction prog with
+  | nil =>
+    intro stack alt fuel _ _ _ _
+    rw [run_nil _ _ _ _ rfl]
+    exact finalTest_spec _ _ _
+  | cons c rest ih =>
+    intro stack alt fuel hsl hfuel hve hov
+    obtain ⟨f, rfl⟩ : ∃ f, fuel = f + 1 := ⟨fuel - 1, by simp at hfuel; omega⟩
+    have hf : rest.length ≤ f := by simp at hfuel; omega
+    simp only [List.all_cons, Bool.and_eq_true] at hsl
+    obtain ⟨hc, hrest⟩ := hsl
+    rw [run_cons _ _ _ _ c rest rfl] at hve ⊢
+    cases c with
+    | push b =>
+      have hp : plainPush b = true := hc
+      have h1 : step Cfg.repaired env ⟨rest, stack, alt, none, false⟩ (.push b)
+          = .ok ⟨rest, b :: stack, alt, none, false⟩ := by
+        simp only [step]
+        rw [p2shRule_plain env _ b hrest]
+        exact witnessRules_plain env _ b stack rfl hp
+      have h2 : Consensus.runFrom (ctxOf env) ⟨stack, alt, []⟩ (.push b :: rest)
+          = Consensus.runFrom (ctxOf env) ⟨b :: stack, alt, []⟩ rest := by
+        simp [Consensus.runFrom, Consensus.step, Consensus.fExec]
+      rw [h1] at hve ⊢
+      rw [h2] at hov ⊢
+      exact ih (b :: stack) alt f hrest hf hve hov
+    | op k =>
+      have hk : slOp k = true := hc
+      rcases slOp_cases hk with ⟨fn, hp⟩ | h107 | h108 | h103 | h104
+      · -- a function of the subset
+        obtain ⟨hr, hconv, hun, hdis, n99, n100, n103, n104⟩ := table_pairs (k, fn) hp
+        have hfn : fn ≠ .if_ ∧ fn ≠ .notif ∧ fn ≠ .toaltstack ∧ fn ≠ .fromaltstack := by
+          exact table_pairs_plain (k, fn) hp
+        have hstep : step Cfg.repaired env ⟨rest, stack, alt, none, false⟩ (.op k)
+            = (applyStackFn Cfg.repaired env fn stack).toOut
+                fun s => .ok ⟨rest, s, alt, none, false⟩ :=
+          stepOp_plain Cfg.repaired env ⟨rest, stack, alt, none, false⟩ k fn hr hconv hfn
+        have hspec : Consensus.step (ctxOf env) ⟨stack, alt, []⟩ (.op k)
+            = (Consensus.execOp (ctxOf env) k stack alt).map
+                fun (p : Stack × Stack) => ⟨p.1, p.2, []⟩ := by
+          simp [Consensus.step, hun, hdis, n99, n100, n103, n104, Consensus.fExec]
+        rw [hstep] at hve ⊢
+        have hne : Consensus.execOp (ctxOf env) k stack alt ≠ .oversize := by
+          intro e; apply hov; simp [Consensus.runFrom, hspec, e, Consensus.Res.map]
+        have hve' : k = 178 → op_checksequenceverify Cfg.repaired env stack ≠ .err .valueError := by
+          intro e178 ee
+          subst e178
+          have : fn = .checksequenceverify := by
+            have := (table_pairs (178, fn) hp).1
+            have h2 : resolve false 178 = some .checksequenceverify := by decide
+            rw [h2] at this; exact (Option.some.inj this).symm
+          subst this
+          apply hve
+          show (match (op_checksequenceverify Cfg.repaired env stack).toOut _ with
+            | .error o => o | .ok st' => _) = _
+          rw [ee]; rfl
+        have hconf := fn_conforms env k fn hp stack alt hlt hve' hne
+        simp only [Consensus.runFrom, hspec] at hov ⊢
+        cases hres : applyStackFn Cfg.repaired env fn stack with
+        | ok s' =>
+          rw [hres] at hconf hve
+          simp only [liftS] at hconf
+          rw [← hconf] at hov ⊢
+          simp only [Res.toOut, Consensus.Res.map] at hve hov ⊢
+          exact ih s' alt f hrest hf hve hov
+        | fail =>
+          rw [hres] at hconf
+          simp only [liftS] at hconf
+          rw [← hconf]
+          rfl
+        | err e =>
+          rw [hres] at hconf
+          simp only [liftS] at hconf
+          rw [← hconf]
+          rfl
+      · -- OP_TOALTSTACK
+        subst h107
+        have hstep : step Cfg.repaired env ⟨rest, stack, alt, none, false⟩ (.op 107)
+            = (op_toaltstack stack alt).toOut fun p => .ok ⟨rest, p.1, p.2, none, false⟩ := rfl
+        have hspec : Consensus.step (ctxOf env) ⟨stack, alt, []⟩ (.op 107)
+            = (Consensus.execOp (ctxOf env) 107 stack alt).map
+                fun (p : Stack × Stack) => ⟨p.1, p.2, []⟩ := rfl
+        have hconf := conf_toaltstack (ctxOf env) stack alt
+        rw [hstep] at hve ⊢
+        simp only [Consensus.runFrom, hspec] at hov ⊢
+        rw [← hconf] at hov ⊢
+        cases hres : op_toaltstack stack alt with
+        | ok p =>
+          rw [hres] at hve hov
+          simp only [liftSA, Res.toOut, Consensus.Res.map] at hve hov ⊢
+          exact ih p.1 p.2 f hrest hf hve hov
+        | fail => rfl
+        | err e => rfl
+      · -- OP_FROMALTSTACK
+        subst h108
+        have hstep : step Cfg.repaired env ⟨rest, stack, alt, none, false⟩ (.op 108)
+            = (op_fromaltstack stack alt).toOut fun p => .ok ⟨rest, p.1, p.2, none, false⟩ := rfl
+        have hspec : Consensus.step (ctxOf env) ⟨stack, alt, []⟩ (.op 108)
+            = (Consensus.execOp (ctxOf env) 108 stack alt).map
+                fun (p : Stack × Stack) => ⟨p.1, p.2, []⟩ := rfl
+        have hconf := conf_fromaltstack (ctxOf env) stack alt
+        rw [hstep] at hve ⊢
+        simp only [Consensus.runFrom, hspec] at hov ⊢
+        rw [← hconf] at hov ⊢
+        cases hres : op_fromaltstack stack alt with
+        | ok p =>
+          rw [hres] at hve hov
+          simp only [liftSA, Res.toOut, Consensus.Res.map] at hve hov ⊢
+          exact ih p.1 p.2 f hrest hf hve hov
+        | fail => rfl
+        | err e => rfl
+      · -- a stray OP_ELSE: KeyError in the implementation, unbalanced conditional in consensus
+        subst h103; rfl
+      · subst h104; rfl
+
+/-- what consensus sees of one interpreter step -/
+def stepSpec : Step → Consensus.Res (Stack × Stack)
+  | .ok st => .ok (st.stack, st.alt)
+  | .error _ => .fail
+
+/-- a concrete environment for witnesses (identity "hashes") -/
+def testEnv (lt seq ver : Nat) : Env :=
+  { locktime := lt, sequence := seq, version := ver, sha1 := id, ripemd160 := id, sha256 := id,
+    hash160 := id, hash256 := id }
+
 end Buidl.Interp
